@@ -193,19 +193,19 @@ Proof.
   - destruct (writable f p); [|now left].
     destruct (upd_local f p (Some (File 0)) q) as [H| ->]; [now left|].
     right; left. exists p. split; [now left | apply under_refl].
-  - destruct (f a) as [[c|]|]; try now left.
+  - destruct (deref f a) as [[c| |t]|]; try now left.
     destruct (writable f _); [|now left].
     destruct (upd_local f (if is_dir f b then b ++ [last a []] else b) (Some (File c)) q) as [H| ->];
       [now left|].
     right; left. exists b. split; [now left|].
     destruct (is_dir f b); [apply under_app | apply under_refl].
-  - destruct (is_dir f a && is_none (f b)); [|now left].
+  - destruct (leads_to_dir f a && is_none (deref f b) && is_none (f b)); [|now left].
     destruct (is_dir (mkdirs f b) b); [|now left].
     destruct (strip_prefix b q) as [suf|] eqn:E.
     + right; left. exists b. split; [now left|]. apply strip_prefix_some in E. now exists suf.
     + destruct (mkdirs_local f b q) as [H|(U & N & D)]; [now left|].
       right; right. exists b. split; [now left | auto].
-  - destruct (f a) as [[c|]|]; try now left.
+  - destruct (f a) as [[c| |t]|]; try now left.
     destruct (writable f b); [|now left].
     destruct (upd_local (upd f a None) b (Some (File c)) q) as [H| ->].
     + rewrite H. destruct (upd_local f a None q) as [H2| ->]; [now left|].
@@ -240,7 +240,34 @@ Qed.
 (* a copy of a tree onto itself cannot do anything *)
 Lemma copytree_self a f : run_op (CopyTree a a) f = f.
 Proof.
-  simpl. unfold is_dir, is_none. destruct (f a) as [[c|]|]; reflexivity.
+  simpl. unfold leads_to_dir, is_none. destruct (deref f a) as [[c| |t]|]; reflexivity.
+Qed.
+
+(* following links never answers with a link ... *)
+Lemma follow_not_link : forall fuel f cs pre t, follow fuel f pre cs <> Some (Link t).
+Proof.
+  induction fuel as [|n IH]; intros f cs; induction cs as [|c cs IHcs]; intros pre t; simpl.
+  - destruct (f pre) as [[x| |u]|]; discriminate.
+  - destruct (f (pre ++ [c])) as [[x| |u]|]; try discriminate;
+      destruct cs; try discriminate; apply IHcs.
+  - destruct (f pre) as [[x| |u]|]; discriminate.
+  - destruct (f (pre ++ [c])) as [[x| |u]|]; try discriminate;
+      [destruct cs; discriminate | destruct cs; [discriminate | apply IHcs] | apply IH].
+Qed.
+
+(* ... so what copytree puts below its destination is never a link: the touches that
+   ford.output.copytree applies to the copies act on the copies themselves *)
+Lemma copies_are_not_links a b f suf n :
+  deref f (a ++ suf) = Some n ->
+  leads_to_dir f a && is_none (deref f b) && is_none (f b) = true -> is_dir (mkdirs f b) b = true ->
+  run_op (CopyTree a b) f (b ++ suf) = Some n /\
+  touch_acts_on (run_op (CopyTree a b) f) (b ++ suf) = b ++ suf.
+Proof.
+  intros D G M. simpl. rewrite G, M.
+  assert (E : strip_prefix b (b ++ suf) = Some suf).
+  { clear. induction b as [|x b IH]; simpl; [reflexivity|]. now rewrite str_eqb_refl. }
+  unfold touch_acts_on. rewrite E, D. split; [reflexivity|].
+  destruct n as [c| |t]; try reflexivity. exfalso. exact (follow_not_link _ _ _ _ _ D).
 Qed.
 
 Lemma run_agree rs ops : Forall (op_confined rs) ops -> forall f, agree_outside rs f (run ops f).
